@@ -476,24 +476,55 @@ def parse_key_function(src, name, version_const):
     return shape, time_gate
 
 
-def read_spec(repo):
+EXPECTED_ENV = [('EName', 'LP'), ('ELit', b'='), ('EVal', 'LP')]
+EXPECTED_SHAPE_C = [('CDigest',), ('CPlusplus',), ('CVersion',), ('CLang',), ('CArgs', 'LP'), ('CExtra',),
+                    ('CEnv', EXPECTED_ENV), ('CPP',)]
+EXPECTED_SHAPE_P = [('CDigest',), ('CPlusplus',), ('CFmtVersion',), ('CLang',), ('CArgs', 'LP'), ('CExtra',),
+                    ('CEnv', EXPECTED_ENV), ('CPath',), ('CInputDigest',)]
+
+
+def read_spec(repo, fallback=None):
+    """-> (spec, errors).  An item that cannot be recognised is reported in `errors` and replaced by the value the
+    model is proved for (component orders) or by `fallback[item]` (last good run), so that the differential legs
+    still compare the real code with the EXPECTED behaviour and can look for a failing input."""
     c = read(repo, 'src/compiler/c.rs')
     p = read(repo, 'src/compiler/preprocessor_cache.rs')
     k = read(repo, 'src/compiler/compiler.rs')
-    shape_c, gate_c = parse_key_function(c, 'hash_key', 'CACHE_VERSION')
-    shape_p, gate_p = parse_key_function(p, 'preprocessor_cache_entry_hash_key', 'FORMAT_VERSION')
-    if gate_c:
-        raise Unrecognised('hash_key has a time-macro gate')
-    return {
-        'version': const_bytes(c, 'CACHE_VERSION'),
-        'fmt_version': const_u8(p, 'FORMAT_VERSION'),
-        'allow_main': env_allow_list(c),
-        'allow_pp': env_allow_list(p),
-        'tags': language_table(k),
-        'shape_c': shape_c,
-        'shape_p': shape_p,
-        'time_gate': gate_p,
-    }
+    fallback = fallback or {}
+    errors = []
+    spec = {}
+
+    def item(name, f, default):
+        try:
+            spec[name] = f()
+        except Unrecognised as e:
+            errors.append('%s: %s' % (name, e))
+            if default is None:
+                raise
+            spec[name] = default
+
+    def shape_c():
+        sh, gate = parse_key_function(c, 'hash_key', 'CACHE_VERSION')
+        if gate:
+            raise Unrecognised('hash_key has a time-macro gate')
+        return sh
+
+    gate = {}
+
+    def shape_p():
+        sh, g = parse_key_function(p, 'preprocessor_cache_entry_hash_key', 'FORMAT_VERSION')
+        gate['g'] = g
+        return sh
+
+    item('version', lambda: const_bytes(c, 'CACHE_VERSION'), fallback.get('version'))
+    item('fmt_version', lambda: const_u8(p, 'FORMAT_VERSION'), fallback.get('fmt_version'))
+    item('allow_main', lambda: env_allow_list(c), fallback.get('allow_main'))
+    item('allow_pp', lambda: env_allow_list(p), fallback.get('allow_pp'))
+    item('tags', lambda: language_table(k), fallback.get('tags'))
+    item('shape_c', shape_c, EXPECTED_SHAPE_C)
+    item('shape_p', shape_p, EXPECTED_SHAPE_P)
+    spec['time_gate'] = gate.get('g', True)
+    return spec, errors
 
 
 # ---------------------------------------------------------------- Coq output
@@ -572,6 +603,9 @@ Proof. vm_compute; reflexivity. Qed.
 (* S16: every variable of the main key's allow-list is also part of the preprocessor-level key *)
 Lemma the_spec_env_covers : env_covers the_spec = true.
 Proof. vm_compute; reflexivity. Qed.
+(* no variable the property counts as result-affecting has been dropped from an allow-list *)
+Lemma the_spec_required : required_ok the_spec = true.
+Proof. vm_compute; reflexivity. Qed.
 Lemma the_spec_time_gate : time_gate the_spec = true.
 Proof. vm_compute; reflexivity. Qed.
 
@@ -591,10 +625,11 @@ def write_if_changed(path, txt):
     return True
 
 
-def main(repo, gen_dir):
-    spec = read_spec(repo)
+def main(repo, gen_dir, fallback=None):
+    """-> (spec, errors); the Gen files are written even when some item fell back (see read_spec)."""
+    spec, errors = read_spec(repo, fallback)
     emit(spec, gen_dir)
-    return spec
+    return spec, errors
 
 
 if __name__ == '__main__':
